@@ -2195,6 +2195,19 @@ protected:    // interface for the derived class
     };
 
     // Main function used internally to make transitions
+    // puts a deferred event back into the deferred queue (if there is one)
+    template <class Event>
+    ::boost::msm::back::HandledEnum keep_deferred_event_helper(Event const& evt, ::boost::mpl::true_ const &)
+    {
+        defer_event(evt);
+        return ::boost::msm::back::HANDLED_DEFERRED;
+    }
+    template <class Event>
+    ::boost::msm::back::HandledEnum keep_deferred_event_helper(Event const& , ::boost::mpl::false_ const &)
+    {
+        return ::boost::msm::back::HANDLED_TRUE;
+    }
+
     // Can only be called for internally (for example in an action method) generated events.
     template<class Event>
     ::boost::msm::back::execute_return process_event_internal(Event&& evt,
@@ -2204,6 +2217,12 @@ protected:    // interface for the derived class
         if (is_event_handling_blocked_helper<Event>
                 ( ::boost::mpl::bool_<has_fsm_blocking_states<library_sm>::type::value>() ) )
         {
+            // a deferred event which is re-offered while the machine is blocked stays deferred
+            if (::boost::msm::back::EVENT_SOURCE_DEFERRED & source)
+            {
+                return keep_deferred_event_helper(
+                    evt, ::boost::mpl::bool_<has_fsm_deferred_events<library_sm>::type::value>());
+            }
             return ::boost::msm::back::HANDLED_TRUE;
         }
 
